@@ -3,6 +3,7 @@ package main
 // Translation of one activation's SSA blocks.
 
 import (
+	"os"
 	"sort"
 	"fmt"
 	"go/constant"
@@ -307,6 +308,21 @@ func (fr *Frame) loopModSet(li *loopInfo) (*ModSet, map[*ssa.Alloc]bool) {
 
 func (fr *Frame) loopHead(li *loopInfo, b *ssa.BasicBlock, phis []*ssa.Phi, preds []*ssa.BasicBlock, conds []string, st *State) *State {
 	fc := fr.fc
+	if os.Getenv("ZVC_DEBUG_LOOPS") != "" && fr.isTop {
+		ms, _ := fr.loopModSet(li)
+		fmt.Fprintf(os.Stderr, "loop %d of %s: all=%v pfx=%v names=%d\n", li.ord, fr.fn.Name(), ms.All, ms.Pfx, len(ms.Names))
+		if ms.All {
+			for bb := range li.blocks {
+				for _, in := range bb.Instrs {
+					one := newModSet()
+					fc.g.instrMods(fc, fr.fn, in, one)
+					if one.All {
+						fmt.Fprintf(os.Stderr, "   ALL from: %s\n", in.String())
+					}
+				}
+			}
+		}
+	}
 	spec := fc.spec
 	var invs []*Clause
 	if fr.isTop && spec != nil {
@@ -323,6 +339,7 @@ func (fr *Frame) loopHead(li *loopInfo, b *ssa.BasicBlock, phis []*ssa.Phi, pred
 		entryPhi[p] = fr.mergePhi(p, b, preds, conds)
 	}
 	li.preSt = st
+	li.entryPhi = entryPhi
 	if fc.relMode {
 		li.relEntry = &relPoint{vals: entryPhi, st: st, cond: fr.reach[b]}
 	}
@@ -330,6 +347,7 @@ func (fr *Frame) loopHead(li *loopInfo, b *ssa.BasicBlock, phis []*ssa.Phi, pred
 	if fr.isTop {
 		env := fr.specEnv(st, b, entryPhi)
 		env.loopPre = st
+		env.lookupEntry = func(name string, s2 *State) (Val, bool) { return fr.lookupLocal(name, s2, b, entryPhi) }
 		for _, c := range invs {
 			f := env.bool(c.Expr)
 			fc.addOblig(&Oblig{Name: fmt.Sprintf("%s/inv-entry#L%d.%d", spec.Name, li.ord, c.Ord), Kind: "inv-entry", Tags: c.Tags,
@@ -374,6 +392,7 @@ func (fr *Frame) loopHead(li *loopInfo, b *ssa.BasicBlock, phis []*ssa.Phi, pred
 	if fr.isTop {
 		env := fr.specEnv(nst, b, nil)
 		env.loopPre = li.preSt
+		env.lookupEntry = func(name string, s2 *State) (Val, bool) { return fr.lookupLocal(name, s2, b, entryPhi) }
 		for _, c := range invs {
 			f := env.bool(c.Expr)
 			fc.assume(sImp(fr.reach[b], f), "invariant "+c.Text)
@@ -460,6 +479,7 @@ func (fr *Frame) backEdge(b, h *ssa.BasicBlock, cond string, st *State) {
 	}
 	env := fr.specEnv(st, h, over)
 	env.loopPre = li.preSt
+	env.lookupEntry = func(name string, s2 *State) (Val, bool) { return fr.lookupLocal(name, s2, h, li.entryPhi) }
 	for _, c := range append(append([]*Clause(nil), fc.spec.Invs...), fc.globalInvs()...) {
 		if (c.Kind != "global-invariant" && c.Loop != li.ord) || !fc.modeOK(c) {
 			continue
